@@ -44,15 +44,15 @@ EncAuthAsBuilt(EL, CH, TAG, b, bad) ==
 \* ------------------------------------------------------------------ compression layer
 \* a = compressed bytes available; returns <<low, high>> plaintext bounds
 USize(A, j) == IF j < Len(A.csizes) THEN A.BL ELSE A.clast
+\* (prefix sums are written without functions that refer to themselves twice: TLC does not memoise those)
+CStartOf(A, j) == SumSeq(SubSeq(A.csizes, 1, j - 1))                      \* compressed offset of block j (1-based)
+PlainBefore(A, j) == SumSeq([i \in 1..(j - 1) |-> USize(A, i)])            \* plaintext bytes before block j
 CompBounds(A, a) ==
   LET n == Len(A.csizes)
-      F[j \in 1..(n + 1)] ==       \* <<compressed start of block j, plaintext before block j>>
-          IF j = 1 THEN <<0, 0>> ELSE <<F[j - 1][1] + A.csizes[j - 1], F[j - 1][2] + USize(A, j - 1)>>
-      \* number of leading blocks whose compressed bytes are all present
-      complete == IF n = 0 THEN 0 ELSE
-                  LET C[j \in 0..n] == IF j = 0 THEN 0 ELSE IF F[j + 1][1] <= a /\ C[j - 1] = j - 1 THEN j ELSE C[j - 1] IN C[n]
-      low  == F[complete + 1][2]
-      high == IF complete < n /\ a > F[complete + 1][1] THEN low + USize(A, complete + 1) ELSE low
+      \* number of leading blocks whose compressed bytes are all present (prefix sums are monotone)
+      complete == Cardinality({ j \in 1..n : CStartOf(A, j + 1) <= a })
+      low  == PlainBefore(A, complete + 1)
+      high == IF complete < n /\ a > CStartOf(A, complete + 1) THEN low + USize(A, complete + 1) ELSE low
   IN <<low, high>>
 CompLen(A) == SumSeq(A.csizes)    \* compressed blocks only (the layer footer follows)
 
